@@ -4,6 +4,7 @@ import math
 
 from ..model import UNKNOWN, FuncInfo, call_name, kwarg, unparse
 from ..report import AnalysisError
+from ..astutil import canon, factors, resolve
 
 
 def _strs(node):
@@ -46,15 +47,34 @@ def swan_vocab(repo, rep):
                  f"the writer emits block keyword(s) {sorted(unknown)} the reader never looks for: the file does not read back")
     else:
         rep.ok("R-C11-1", f"{wh.file} SwanSpecFile", f"keywords {sorted(written & need)}", "every keyword written is recognised by the reader")
-    # writer branches NODATA / ZERO / FACTOR <-> reader branches
-    wtests = [unparse(n.test).replace(" ", "") for n in ast.walk(ws.node) if isinstance(n, ast.If)]
-    if any("np.isnan(fac)" in t for t in wtests) and any(t in ("fac<=0", "fac<=0.0") for t in wtests):
+    # writer branches NODATA / ZERO / FACTOR <-> reader branches (the factor variable is found by shape, not by name)
+    facvar = None
+    for n in ast.walk(ws.node):
+        if isinstance(n, ast.If) and isinstance(n.test, ast.Call) and call_name(n.test) in ("np.isnan", "numpy.isnan", "math.isnan") and n.test.args and isinstance(n.test.args[0], ast.Name):
+            facvar = n.test.args[0].id
+            chain = [n.test]
+            e = n.orelse
+            while len(e) == 1 and isinstance(e[0], ast.If):
+                chain.append(e[0].test)
+                e = e[0].orelse
+    okb = False
+    if facvar is not None and len(chain) >= 2:
+        t2 = chain[1]
+        okb = isinstance(t2, ast.Compare) and isinstance(t2.ops[0], ast.LtE) and unparse(t2.left) == facvar and repo.const(ws.module, t2.comparators[0]) == 0
+    if okb:
         rep.ok("R-C11-1", f"{ws.file}:{ws.node.lineno} write_spectra", "isnan(fac) -> NODATA; fac <= 0 -> ZERO; else FACTOR", "three cases, three reader branches")
     else:
-        rep.fail("R-C11-1", ws.file, ws.node.lineno, ws.qualname, str(wtests), "missing / zero / scaled spectra must map onto NODATA / ZERO / FACTOR blocks")
-    # factor: written spec / fac, read Snew *= fac
-    wt, rt = unparse(ws.node).replace(" ", ""), unparse(rd.node).replace(" ", "")
-    if "spec/fac" in wt and "Snew*=fac" in rt:
+        rep.fail("R-C11-1", ws.file, ws.node.lineno, ws.qualname, "NODATA / ZERO / FACTOR case split", "missing / zero / scaled spectra must map onto NODATA / ZERO / FACTOR blocks")
+    # factor: written spec / fac, read back multiplied by the factor parsed from the file
+    wdiv = any(isinstance(n, ast.BinOp) and isinstance(n.op, ast.Div) and unparse(n.right) == facvar for c in ast.walk(ws.node)
+               if isinstance(c, ast.Call) and call_name(c) in ("np.savetxt", "numpy.savetxt") for n in ast.walk(c))
+    rfac = None
+    for n in ast.walk(rd.node):
+        if isinstance(n, ast.Assign) and isinstance(n.targets[0], ast.Name) and isinstance(n.value, ast.Call) and call_name(n.value) == "float" and "readline" in unparse(n.value):
+            rfac = n.targets[0].id
+    rmul = any(isinstance(n, ast.AugAssign) and isinstance(n.op, ast.Mult) and unparse(n.value) == rfac for n in ast.walk(rd.node)) or \
+        any(isinstance(n, ast.BinOp) and isinstance(n.op, ast.Mult) and rfac in (unparse(n.left), unparse(n.right)) for n in ast.walk(rd.node))
+    if wdiv and rfac and rmul:
         rep.ok("R-C11-1", f"{ws.file} SwanSpecFile", "write spec / fac ; read Snew *= fac", "inverse operations")
     else:
         rep.fail("R-C11-1", ws.file, ws.node.lineno, ws.qualname, "factor handling", "the reader must multiply by the factor the writer divided by")
@@ -75,7 +95,9 @@ def swan_vocab(repo, rep):
     else:
         rep.fail("R-C11-1", to_swan.file, to_swan.node.lineno, to_swan.qualname, f"writes '{wfmt}', reads '{rfmt}'", "timestamps are written in a format the reader does not parse")
     # declared unit line => reader's units branch is the identity
-    if "m2/Hz/degr" in " ".join(_strs(wh.node)) and 'units.upper().startswith("J")' in unparse(init.node).replace("'", '"'):
+    jtest = any(isinstance(n, ast.If) and isinstance(n.test, ast.Call) and isinstance(n.test.func, ast.Attribute) and n.test.func.attr == "startswith"
+                and n.test.args and repo.const(init.module, n.test.args[0]) == "J" for n in ast.walk(init.node))
+    if "m2/Hz/degr" in " ".join(_strs(wh.node)) and jtest:
         rep.ok("R-C11-1", f"{wh.file} SwanSpecFile", "unit line 'm2/Hz/degr' does not start with J", "reader applies no energy-unit factor")
     else:
         rep.fail("R-C11-1", wh.file, wh.node.lineno, wh.qualname, "unit line", "the unit declared by the writer must select the reader's identity units branch")
@@ -98,8 +120,9 @@ def dir_permutation(repo, rep, rule):
         raise AnalysisError("SwanSpecFile: direction reordering statements not found")
     lt = unparse(lab.value).replace(" ", "")
     gather_lab = lt.startswith("self.dirs[self.dirmap]")
-    dt = unparse(dat).replace(" ", "")
-    gather_dat = dt == "Snew=Snew[:,self.dirmap]"
+    gather_dat = isinstance(dat, ast.Assign) and isinstance(dat.targets[0], ast.Name) and isinstance(dat.value, ast.Subscript) and \
+        unparse(dat.value.value) == dat.targets[0].id and isinstance(dat.value.slice, ast.Tuple) and len(dat.value.slice.elts) == 2 and \
+        isinstance(dat.value.slice.elts[0], ast.Slice) and unparse(dat.value.slice.elts[1]) == "self.dirmap"
     dm = [n for n in ast.walk(init.node) if isinstance(n, ast.Assign) and unparse(n.targets[0]) == "self.dirmap" and "argsort" in unparse(n.value)]
     key_ok = bool(dm) and "self.dirs%360" in unparse(dm[0].value).replace(" ", "")
     if gather_lab and gather_dat and key_ok:
@@ -131,11 +154,32 @@ def location_order(repo, rep):
         raise AnalysisError("location order: stack(site=...) / reshape(...) not found")
     slow_w = worder[0][0]            # first name in stack tuple varies slowest
     a1 = rorder[0][1]
-    slow_r = repo.attrs.LONNAME if "lons" in a1 else repo.attrs.LATNAME
+    # which coordinate sized the first location axis: follow len(<name>) to sorted(np.unique(<x or y of the file>))
+    slow_r = None
+    m = ast.parse(a1, mode="eval").body
+    if isinstance(m, ast.Call) and call_name(m) == "len" and m.args and isinstance(m.args[0], ast.Name):
+        src = m.args[0]
+        before = rorder[1].lineno
+        for _ in range(8):
+            if isinstance(src, ast.Name):
+                cands = [a_ for a_ in ast.walk(rs.node) if isinstance(a_, ast.Assign) and isinstance(a_.targets[0], ast.Name)
+                         and a_.targets[0].id == src.id and a_.lineno < before]
+                if not cands:
+                    break
+                a_ = max(cands, key=lambda x: x.lineno)
+                src, before = a_.value, a_.lineno
+            elif isinstance(src, ast.Call) and call_name(src) in ("sorted", "np.unique", "numpy.unique", "list") and src.args:
+                src = src.args[0]
+            else:
+                break
+        t = unparse(src)
+        slow_r = repo.attrs.LONNAME if t.endswith(".x") else (repo.attrs.LATNAME if t.endswith(".y") else None)
+    if slow_r is None:
+        raise AnalysisError("read_swan: cannot tell which coordinate sizes the first location axis")
     if slow_w == slow_r:
         rep.ok("R-C11-2", f"{st.file}:{worder[1].lineno} / {rs.file}:{rorder[1].lineno}", f"slowest grid coordinate '{slow_w}' on both sides", "each spectrum read back at the position it was written from")
     else:
-        rep.fail("R-C11-2", rs.file, rorder[1].lineno, rs.qualname, f"reshape({', '.join(rorder[0])}) vs stack(site={worder[0]})",
+        rep.fail("R-C11-2", rs.file, rorder[1].lineno, rs.qualname, f"reshape({', '.join(rorder[0])}) vs stack(site={worder[0]})", anchor="swan:grid-location-order", reason=
                  f"the writer flattens a grid with '{slow_w}' varying slowest, the reader rebuilds it with '{slow_r}' slowest: on a grid with "
                  "unequal sizes every spectrum comes back at another position")
 
@@ -175,7 +219,13 @@ def ww3_pair(repo, rep):
         rep.fail("R-C11-4", wm.relpath, 1, "wavespectra.output.ww3", "MAPPING tables", "writer and reader rename with different tables")
     w, r = repo.func("wavespectra.output.ww3.to_ww3"), repo.func("wavespectra.input.ww3.from_ww3")
     wt, rt = unparse(w.node).replace(" ", ""), unparse(r.node).replace(" ", "")
-    inv = "{v:kfork,vinMAPPING.items()" in wt
+    inv = False
+    for n in ast.walk(w.node):
+        if isinstance(n, ast.DictComp) and len(n.generators) == 1:
+            g = n.generators[0]
+            if isinstance(g.target, ast.Tuple) and len(g.target.elts) == 2 and unparse(g.iter).replace(" ", "") == "MAPPING.items()":
+                k_, v_ = (unparse(e) for e in g.target.elts)
+                inv = unparse(n.key) == v_ and unparse(n.value) == k_
     if inv:
         rep.ok("R-C11-4", f"{w.file} to_ww3", "rename({v: k for k, v in MAPPING.items() ...})", "inverse of the reader's mapping")
     else:
@@ -259,14 +309,31 @@ def funwave_pair(repo, rep):
     w, r = repo.func("wavespectra.output.funwave.funwave_spectrum"), repo.func("wavespectra.input.funwave.read_funwave")
     wt, rt = unparse(w.node).replace(" ", ""), unparse(r.node).replace(" ", "")
     # amp = sqrt(E df dd 8)/2  ;  E = amp^2 / (df dd 2):  (sqrt(8 x)/2)^2 / 2 = x
-    wa = "np.sqrt(darr*darr.spec.df*darr.spec.dd*8)/2" in wt
-    ra = "darr**2/(darr.spec.df*darr.spec.dd*2)" in rt
+    def prod_sig(e):
+        out = []
+        for f in factors(e):
+            c = repo.const(w.module, f)
+            out.append(str(c) if isinstance(c, (int, float)) else unparse(f).split(".")[-1])
+        return sorted(out)
+    wa = ra = False
+    for n in ast.walk(w.node):
+        if isinstance(n, ast.BinOp) and isinstance(n.op, ast.Div) and repo.const(w.module, n.right) == 2 and isinstance(n.left, ast.Call) and \
+                call_name(n.left) in ("np.sqrt", "numpy.sqrt") and n.left.args and {"8", "dd", "df"} <= set(prod_sig(n.left.args[0])) and len(factors(n.left.args[0])) == 4:
+            wa = True
+    for n in ast.walk(r.node):
+        if isinstance(n, ast.BinOp) and isinstance(n.op, ast.Div) and isinstance(n.left, ast.BinOp) and isinstance(n.left.op, ast.Pow) and \
+                repo.const(r.module, n.left.right) == 2 and prod_sig(n.right) == ["2", "dd", "df"]:
+            ra = True
     if wa and ra:
         rep.ok("R-C11-6", f"{w.file} / {r.file}", "amp = sqrt(8 E df dd)/2 ; E = amp^2 / (2 df dd)", "compose to the identity (coefficient 8/4/2 = 1)")
     else:
         rep.fail("R-C11-6", w.file, w.node.lineno, w.qualname, "amplitude <-> density", "writer's amplitude formula and reader's inverse no longer compose to the identity")
     tw = unparse(repo.func("wavespectra.output.funwave.to_funwave").node).replace(" ", "")
-    if "(270-self.dir.values)%360" in tw and "(270-dir)%360" in rt:
+    def _invol(node, mod):
+        return any(isinstance(b_, ast.BinOp) and isinstance(b_.op, ast.Mod) and repo.const(mod, b_.right) == 360 and isinstance(b_.left, ast.BinOp)
+                   and isinstance(b_.left.op, ast.Sub) and repo.const(mod, b_.left.left) == 270 for b_ in ast.walk(node))
+    twf = repo.func("wavespectra.output.funwave.to_funwave")
+    if _invol(twf.node, twf.module) and _invol(r.node, r.module):
         rep.ok("R-C11-6", f"{w.file} / {r.file}", "(270 - d) % 360 on both sides", "an involution: nautical-from <-> cartesian-to and back")
     else:
         rep.fail("R-C11-6", w.file, w.node.lineno, w.qualname, "direction mapping", "both sides must use the involution (270 - d) % 360")
@@ -275,12 +342,24 @@ def funwave_pair(repo, rep):
 def octopus_pair(repo, rep):
     w, r = repo.func("wavespectra.output.octopus.to_octopus"), repo.func("wavespectra.input.octopus.read_octopus")
     wt, rt = unparse(w.node).replace(" ", ""), unparse(r.node).replace(" ", "")
-    if "dset.spec.to_energy()" in wt and "ds.efth/(ds.spec.df*ds.spec.dd)" in rt:
+    rdiv = any(isinstance(n, ast.BinOp) and isinstance(n.op, ast.Div) and unparse(n.left).endswith(".efth") and
+               sorted(unparse(f).split(".")[-1] for f in factors(n.right)) == ["dd", "df"] and all(".spec." in unparse(f) for f in factors(n.right))
+               for n in ast.walk(r.node))
+    if any(isinstance(c, ast.Call) and isinstance(c.func, ast.Attribute) and c.func.attr == "to_energy" for c in ast.walk(w.node)) and rdiv:
         rep.ok("R-C11-5", f"{w.file} / {r.file}", "writes efth*df*dd (to_energy) ; reads efth / (df*dd)", "same accessor bin widths on both sides")
     else:
         rep.fail("R-C11-5", w.file, w.node.lineno, w.qualname, "energy <-> density", "the reader must divide by the same df*dd the writer multiplied by")
-    if ".transpose(attrs.TIMENAME,attrs.SITENAME,attrs.DIRNAME,attrs.FREQNAME)" in wt and "usecols=np.arange(nfreqs+1)" in rt and "unpack=True" in rt \
-            and "dirs=data[0,:]" in rt and "data[1:,:]" in rt:
+    # reader: X = np.loadtxt(.., usecols=np.arange(N + 1), unpack=True); directions = X[0, :]; energy = X[1:, :]
+    lay = False
+    for a_ in ast.walk(r.node):
+        if isinstance(a_, ast.Assign) and isinstance(a_.value, ast.Call) and call_name(a_.value).split(".")[-1] in ("loadtxt", "genfromtxt") and isinstance(a_.targets[0], ast.Name):
+            X = a_.targets[0].id
+            uc, up = kwarg(a_.value, "usecols"), kwarg(a_.value, "unpack")
+            uc_ok = isinstance(uc, ast.Call) and call_name(uc).split(".")[-1] == "arange" and len(uc.args) == 1 and isinstance(uc.args[0], ast.BinOp) \
+                and isinstance(uc.args[0].op, ast.Add) and 1 in (repo.const(r.module, uc.args[0].left), repo.const(r.module, uc.args[0].right))
+            subs = {unparse(s_.slice).replace(" ", "") for s_ in ast.walk(r.node) if isinstance(s_, ast.Subscript) and unparse(s_.value) == X}
+            lay = uc_ok and up is not None and repo.const(r.module, up) is True and {"(0,:)", "(1:,:)"} <= subs
+    if ".transpose(attrs.TIMENAME,attrs.SITENAME,attrs.DIRNAME,attrs.FREQNAME)" in wt and lay:
         rep.ok("R-C11-5", f"{w.file} / {r.file}", "rows = directions, first column = direction, last column = sum", "reader takes columns 0..nfreqs, unpacked: directions then energy")
     else:
         rep.fail("R-C11-5", w.file, w.node.lineno, w.qualname, "table layout", "row / column layout of the energy table differs between writer and reader")
